@@ -11,7 +11,7 @@ from collections.abc import Mapping
 from .ExcludedGcode import EXCLUDE_EXCEPT_FIRST, EXCLUDE_EXCEPT_LAST, EXCLUDE_MERGE
 from .Position import Position
 from .RetractionState import RetractionState
-from .GcodeParser import GcodeParser
+from .GcodeParser import GcodeParser, formatNumber
 
 IGNORE_GCODE_CMD = (None,)
 
@@ -586,7 +586,7 @@ class ExcludeRegionState(object):  # pylint: disable=too-many-instance-attribute
                 # was excluded).  The printer's extruder position still needs to be updated to the
                 # position the file expects following the retraction.
                 returnCommands = [
-                    "G92 E{e}".format(e=self.position.E_AXIS.nativeToLogical())
+                    "G92 E{e}".format(e=formatNumber(self.position.E_AXIS.nativeToLogical()))
                 ]
 
             return returnCommands
@@ -838,7 +838,7 @@ class ExcludeRegionState(object):  # pylint: disable=too-many-instance-attribute
 
         returnCommands.append(
             # Set logical extruder position
-            "G92 E{e}".format(e=self.position.E_AXIS.nativeToLogical())
+            "G92 E{e}".format(e=formatNumber(self.position.E_AXIS.nativeToLogical()))
         )
 
         def targetCoordinate(axis, lastAxis):
@@ -854,9 +854,10 @@ class ExcludeRegionState(object):  # pylint: disable=too-many-instance-attribute
         # units or relative to different offsets if those were changed while excluding
         newZ = self.position.Z_AXIS.current
         oldZ = self.lastPosition.Z_AXIS.current
+        feedRate = formatNumber(self.feedRate / self.feedRateUnitMultiplier)
         moveZcmd = "G0 F{f} Z{z}".format(
-            f=self.feedRate / self.feedRateUnitMultiplier,
-            z=targetCoordinate(self.position.Z_AXIS, self.lastPosition.Z_AXIS)
+            f=feedRate,
+            z=formatNumber(targetCoordinate(self.position.Z_AXIS, self.lastPosition.Z_AXIS))
         )
 
         if (newZ > oldZ):
@@ -868,9 +869,9 @@ class ExcludeRegionState(object):  # pylint: disable=too-many-instance-attribute
             # Move X/Y axes to new position
             # Use G0 ("fast" linear move) as this is a non-extruding move
             "G0 F{f} X{x} Y{y}".format(
-                f=self.feedRate / self.feedRateUnitMultiplier,
-                x=targetCoordinate(self.position.X_AXIS, self.lastPosition.X_AXIS),
-                y=targetCoordinate(self.position.Y_AXIS, self.lastPosition.Y_AXIS)
+                f=feedRate,
+                x=formatNumber(targetCoordinate(self.position.X_AXIS, self.lastPosition.X_AXIS)),
+                y=formatNumber(targetCoordinate(self.position.Y_AXIS, self.lastPosition.Y_AXIS))
             )
         )
 
